@@ -56,6 +56,13 @@ def odd_trees(rng):
     yield E.DivideExpression(x(), E.NegateExpression(E.NegateExpression(y())))
     yield E.EqualExpression(C(4), C(4))
     yield E.EqualExpression(C(9), C(4))
+    # one-operand nodes built with the documented child_on_left=True option, inside material for every rule
+    L = True
+    yield E.EqualExpression(E.AddExpression(x(), E.FactorialExpression(C(3), L)), E.MultiplyExpression(C(2), E.NegateExpression(y(), L)))
+    yield E.MultiplyExpression(E.AddExpression(x(), E.FactorialExpression(C(3), L)), E.AddExpression(E.SgnExpression(y(), L), C(1)))
+    yield E.SubtractExpression(E.MultiplyExpression(C(4), x()), E.MultiplyExpression(E.FactorialExpression(C(2), L), x()))
+    yield E.DivideExpression(E.AddExpression(C(2), C(3)), E.NegateExpression(E.AddExpression(x(), C(1)), L))
+    yield E.EqualExpression(E.AddExpression(E.MultiplyExpression(C(2), x()), E.AbsExpression(C(-5), L)), E.AddExpression(y(), E.FactorialExpression(C(4), L)))
     yield E.PowerExpression(C(2), C(-3))
     yield E.DivideExpression(C(5), C(0))
     yield E.PowerExpression(C(0), C(-1))
